@@ -176,8 +176,8 @@ where
                 self.state = ReceiverState::VerifyingSize(ReusableBoxFuture::new(receive_size(size_rx)));
             }
             None => {
-                // Already verified
-                self.eof_verified = true;
+                // The size information has been consumed by a size verification that failed.
+                return Err(io::Error::new(ErrorKind::UnexpectedEof, "size verification failed"));
             }
         }
         Ok(())
